@@ -2,6 +2,7 @@
 """Regenerates the TLC configs of RateLimit (run in this directory)."""
 INV = ("TypeOK OneChargePerQuestion DropIsSilent ClientWithinBudget NoSharedBucket RememberedIsOwn ExemptNeverLimited\n"
        "  ReplyCookieIsOwn AnswerCarriesCookie BadCookieSound VerifiedIsFree HandoffOnlyInline SameOutcomeAcrossEntries")
+INVCK = INV + " CookieRemembered"   # + the post-Next cookie store, on the configs whose requests carry cookies over both transports
 ACT = "DropLeavesNoTrace EvictionOnlyResets BucketIsolation ExemptUntouched TokensNeverRefillWithoutTime"
 
 
@@ -33,7 +34,8 @@ def consts(**kw):
     return "\n".join(out) + "\n"
 
 
-def mc(name, c, inv=INV, act=ACT):
+def mc(name, c, inv=INV, act=ACT, extra=""):
+    c += extra
     open("MC_%s.cfg" % name, "w").write(c + "SPECIFICATION Spec\nINVARIANTS %s\nPROPERTIES %s\nCHECK_DEADLOCK FALSE\n" % (inv, act))
 
 
@@ -58,14 +60,14 @@ mc("Budget4", consts(Clients=["c1", "c2", "c3"], CCs=[], SVs=[], Protos=["udp"],
                      Exempts=["loopback", "internal"], MaxOps=4, TickSet=[1, 2], CleanSet=[1, 2]))
 # the cookie ladder: two clients, two client cookies, every server half, both transports, malformed cookie, odd packets
 mc("Cookie", consts(CCs=["a", "b"], Shorts=["short"], Odds=[False, True], Questions=["fresh"], Entries=["msg", "inline"], MaxOps=3,
-                    TickSet=[2], CleanSet=[]))
+                    TickSet=[2], CleanSet=[]), inv=INVCK)
 # the edge-cover graph (small: every transition is replayed on the real pipeline)
 mc("Edge", consts(Clients=["c1", "c2"], CCs=["a"], SVs=["bare", "good"], Protos=["udp"], Questions=["q1"], StoreCap=1, MaxOps=3, Burst=1,
                   MaxAge=1, TickSet=[1], CleanSet=[1]))
 mc("EdgeQ", consts(Clients=["c1", "c2"], CCs=["a"], SVs=["bare", "good"], Protos=["udp"], Questions=["q1"], StoreCap=1, MaxOps=2, Burst=1,
                    MaxAge=1, TickSet=[1], CleanSet=[1]))
 mc("EdgeTcp", consts(Clients=["c1"], CCs=["a", "b"], SVs=["bare", "good", "bad"], Protos=["tcp", "udp"], Questions=["fresh"], Entries=["msg", "wire"],
-                     StoreCap=1, MaxOps=3, Burst=1, MaxAge=1, TickSet=[], CleanSet=[]))
+                     StoreCap=1, MaxOps=3, Burst=1, MaxAge=1, TickSet=[], CleanSet=[]), inv=INVCK)
 # per-entry limiter of the cache
 mc("Entry", consts(Clients=["c1", "c2"], CCs=[], SVs=[], Protos=["udp"], Questions=["q1", "q2"], Exempts=["internal"], EntryBurst=1,
                    MaxOps=4, TickSet=[1], CleanSet=[]))
@@ -103,6 +105,9 @@ mc("NegFitCharge", consts(EntryBurst=2, ChargeBeforeFit=True, **dict(BIG, Protos
 mc("NegFitOutcome", consts(EntryBurst=1, ChargeBeforeFit=True, **dict(BIG, Protos=["udp"], MaxOps=3, TickSet=[])))
 mc("NegShared", consts(Clients=["c1", "c2"], CCs=[], SVs=[], Protos=["udp"], Questions=["fresh"], Entries=["msg"], MaxOps=2,
                        TickSet=[], CleanSet=[], SharedKey=True))
+# the wire branch of "mismatched cookie over a stream" without its post-Next store (definition override, not a constant)
+mc("NegWireStore", consts(Clients=["c1"], CCs=["a", "b"], SVs=["bare"], Protos=["tcp"], Questions=["fresh"], Entries=["msg", "wire"],
+                          StoreCap=1, MaxOps=2, Burst=1, MaxAge=1, TickSet=[], CleanSet=[]), inv=INVCK, extra="  WireSkipsStore <- MutOn\n")
 # ---- liveness ---------------------------------------------------------------------------------------
 live("Live", consts(Procs=[1, 2], Clients=["c1"], CCs=["a"], SVs=["bare", "good"], Protos=["udp"], Questions=["q1"],
                     Entries=["msg", "inline"], MaxOps=3, MaxPend=2, TickSet=[1], CleanSet=[], Atomic="free"))
